@@ -2,6 +2,7 @@
 from __future__ import annotations
 
 import ast
+import re
 
 import z3
 
@@ -455,9 +456,17 @@ def apply_contract(self: Interp, key, selfv, args, kwargs, st: State, node):
     frame = Frame(module, cls, None, c, pre)
     outs = []
     caller_frame, caller_env = self.frame, st.env
+    ghost_reset = set()
     with FrameCtx(self, st, frame, env):
         # 1. preconditions
         for i, r in enumerate(c.requires):
+            if "ghost." in r:
+                # a precondition on ghost (specification-only) state RESETS the ghost trace at the call site
+                for gname in set(re.findall(r"ghost\.(\w+)", r)):
+                    if gname not in ghost_reset:
+                        ghost_reset.add(gname)
+                        self.havoc("ghost." + gname + ("[*]" if isinstance(st.ghost.get(gname), Ref) else ""), st)
+                continue
             g = self.contract_truth(r, st)
             saved_frame = self.frame
             self.frame = caller_frame
@@ -466,6 +475,11 @@ def apply_contract(self: Interp, key, selfv, args, kwargs, st: State, node):
             finally:
                 self.frame = saved_frame
             st.assume(g)
+        for r in c.requires:
+            if "ghost." in r:
+                st.assume(self.contract_truth(r, st))
+        frame.pre = st.fork()
+        frame.pre.env = dict(env)
         # 2. raises clauses (ordered)
         earlier = []
         for ent in c.raises:
@@ -488,23 +502,30 @@ def apply_contract(self: Interp, key, selfv, args, kwargs, st: State, node):
         for w in earlier:
             st.assume(znot(w))
         # 3. may_raise: exceptional exit with the modifies-set havocked
-        for ecls in c.may_raise:
+        for ecls in ([] if c.is_cm else c.may_raise):
             s2 = st.fork()
             with FrameCtx(self, s2, frame, dict(env)):
                 for m in c.modifies:
                     self.havoc(m, s2)
+                for e in c.exc_ensures:
+                    s2.assume(self.contract_truth(e, s2))
             s2.env = dict(caller_env)
             outs.append((s2, None, Exc(ecls, ())))
         # 4. normal exit
         for m in c.modifies:
             self.havoc(m, st)
+        # ghost variables constrained by the postconditions are implicitly modified
+        declared = " ".join(c.modifies)
+        for gname in sorted(set(re.findall(r"ghost\.(\w+)", " ".join(c.ensures + c.ghost_ensures)))):
+            if ("ghost." + gname) not in declared:
+                self.havoc("ghost." + gname + ("[*]" if isinstance(st.ghost.get(gname), Ref) else ""), st)
         res = fresh(c.returns, "ret_" + fn.name, st, self) if c.returns != "none" else NONE
         if c.is_cm:
             from .stmts import CMToken
             res = Opaque(z3.Const(fresh_name("cm"), ObjS), "contextmanager")
             res._cm = CMToken(key, frame, dict(env), c)
         st.env["result"] = res
-        for e in c.ensures:
+        for e in c.ensures + c.ghost_ensures:
             st.assume(self.contract_truth(e, st))
     outs.append((st, res, None))
     return outs
